@@ -63,7 +63,7 @@ _R9 = {
  "C15": " Result-directed setter cases: the result is drawn at a range end, the receiver derived from it.",
  "C16": " Results pulled through nth/skip/take/step_by/for-loops as well as next(); zero-padded numbers judged against their numeric reading when accepted.",
  "C17": " Results pulled through nth(k)/skip(k)/take(k+1); clone_from across used/unused source and target states; one-field-restricted schedules.",
- "C18": " Designations and footer names that look like syntax or are long/quoted; a transition spelling the magic.",
+ "C18": " Designations and footer names that look like syntax or are long/quoted; a transition spelling the magic; footers re-spelled with every spelling the grammar allows for one value (explicit +, two-digit hours, h:mm:ss written out, the default /2 explicit).",
  "C19": " Self-aligned files whose header fields are all drawn independently.",
  "C20": " Display through width/fill/precision/flags/forwarding wrapper.",
 }
